@@ -7,3 +7,23 @@ claim("C19",
   "Bounded symbolic model checking over the real constructors and routers (NewGossipSub/NewFloodSub/NewRandomSub with a fake host): Join/Leave of every router record exactly one JOIN resp. LEAVE event for the topic.",
   "Thin check so far (JOIN/LEAVE alternation under the three routers); GRAFT/PRUNE/stream/DELIVER/SEND/DROP accounting harnesses are being added. File/remote tracers (I/O) are outside.",
   "DESIGN.md §4 C19")
+claim("C02",
+  "Bounded symbolic model checking of the real FirstSeenCache/LastSeenCache (Add, Has, sweep) in package timecache: histories of K=4 (thorough 6) symbolic operations over 2 (3) IDs with symbolic TTL and symbolic non-decreasing clock against a first/last-sighting oracle (Add true iff not remembered, retention for at least the TTL, forgotten by the first sweep after the TTL), plus the same operations as one step from an arbitrary cache state (covers histories of any length for the expiry arithmetic, including sweep exactly at the expiry instant).",
+  "The background sweeper goroutine is stopped and sweeps happen at solver-chosen instants; the validation-pipeline gate (markSeen before validators/delivery) and the concurrent race of copies are not yet decided here (see C04 harnesses when registered); virtual clock.",
+  "DESIGN.md §4 C02")
+claim("C15",
+  "Bounded symbolic model checking of the real rpcQueue: K=5 (thorough 6) symbolic Push/UrgentPush/Pop/cancel/Close operations for every capacity 1..3 against a two-list reference model (capacity never exceeded, ErrQueueFull iff full, urgent before normal, FIFO per class, nothing lost or duplicated, closed/cancelled errors, push on closed reported), and the blocking conditions of Pop and blocking Push from every prefilled state.",
+  "Sequential semantics only so far: the concurrent interleavings (cancel landing between Pop's context check and its wait) need the thread mode of the engine, which is not built yet; sync.Cond.Wait is modelled as 'blocks' in these harnesses.",
+  "DESIGN.md §4 C15")
+claim("C17",
+  "Bounded symbolic model checking of the real MessageCache: K=6 (thorough 7, all window shapes gossip<=history<=3) symbolic Put/Get/GetForPeer/GetGossipIDs/Shift operations over 2 message IDs, 2 topics, 2 peers against a ghost age per message: retrievable exactly HistoryLength heartbeats, advertised exactly once during the first HistoryGossip heartbeats and only for its topic, per-peer transmission counts exact and forgotten with the message.",
+  "Message-cache part only so far; IHAVE/IWANT/IDONTWANT handler limits and promise tracking harnesses are being added. Precondition: an ID is Put at most once per window (seen cache, C02).",
+  "DESIGN.md §4 C17")
+claim("C07",
+  "Bounded symbolic model checking, step-inductive: from an ARBITRARY gossipsub router state over P=3..4 peers and one topic (every membership bit, protocol, direction, direct flag, backoff expiry and score a solver variable; built on a node made by the real constructors) ONE real handler is executed and its post-state and wire output are compared with the statement: handleGraft admission rules and PRUNE on refusal, handlePrune, Join (fresh and fanout promotion; GRAFT to exactly the added peers), Leave (PRUNE + unsubscribe backoff), departure of a peer, and a full heartbeat (no negative member remains, under-subscription refill to D, over-subscription cut to D keeping the Dscore best and Dout outbound members, never grafting ineligible peers, GRAFT/PRUNE on the wire for every change) for the parameter tuples (D,Dlo,Dhi,Dscore,Dout)=(2,1,3,1,0) and the all-zero bootstrapper tuple (thorough: + (2,2,3,2,0) with opportunistic grafting, P=4 tuples, P=5 with Dout=1).",
+  "One topic; thresholds concrete in these harnesses (scores symbolic through the real peerScore with an application-specific score of weight 1); shufflePeers/shuffleStrings are summarised as 'any permutation'; GossipFactor=0; partial-message extension off; heartbeat at P=3 in the quick tier.",
+  "DESIGN.md §4 C07")
+claim("C08",
+  "Bounded symbolic model checking, step-inductive over an arbitrary router state (P=3): a GRAFT received during backoff is refused with a PRUNE, not admitted, penalised (doubly inside the graft-flood threshold), extends the backoff and the PRUNE to a v1.1+ peer states the backoff; clock and expiry symbolic so every boundary (now == expiry) is inside.",
+  "Refusal/penalty clause so far; the no-early-GRAFT clause over Join/heartbeat/retry sites is covered indirectly by C07's 'never grafts a backed-off peer' assertions and is being added here explicitly.",
+  "DESIGN.md §4 C08")
